@@ -47,6 +47,9 @@ CHECKS = {
  "C10": dict(level="exploration", ref="7/C10",
    text="Server half: the systematic product pre-history {greeted, authenticated, mid-transaction, mid-BDAT with a parked delivery} x injected plaintext {absent, in the STARTTLS segment, in a later segment before the ClientHello} x TLS {available, not configured, already active}; the raw driver completes a real crypto/tls handshake and sends a drawn tail of in-TLS commands. Oracles on a completed upgrade: no injected bait address reaches the backend, in-TLS reply count = in-TLS command count, MAIL before the new EHLO and RCPT are 5xx, AUTH is not 503, every plaintext session was logged out before the first session that sees TLS, EHLO in TLS no longer advertises STARTTLS; STARTTLS is advertised and accepted iff TLS is configured and not active. Client half: real client via NewClientStartTLS, DialStartTLS and package-level SendMail (both through the VerifDial hook) against a stub server x 7 behaviours x 3 APIs. Oracles: a tap on the raw socket shows nothing but EHLO/HELO/STARTTLS/QUIT before the first TLS record; the stub never sees MAIL/RCPT/AUTH/DATA/content in plaintext; every misbehaviour ends in an API error; on an honest upgrade the first in-TLS command is EHLO and MAIL parameters follow the in-TLS capability list, which differs from the plaintext one (this also catches an injected reply being consumed).",
    note="After a failed handshake nothing is judged except C08's rules. Package-level SendMail uses default certificate verification, so against the self-signed simulated peer only its failure modes are reachable."),
+ "C20": dict(level="exploration", ref="7/C20",
+   text="Every scenario (1-3 connections running chunked/LMTP transfer patterns with slow stale deliveries, pauses, QUIT/disconnect inside a transfer; 0-3 Server.Close/Shutdown(ctx with fake deadline) calls at drawn instants, overlapped through the VerifYield hook, or racing with the start of Serve; scripted temporary/permanent Accept errors; failing listener Close) runs in two builds. Plain build: bubble deadlock, goroutines left after one fake hour (with stacks), panics in Close/Shutdown or handlers, the Close/Shutdown history checked with porcupine v1.3.0 for linearizability against an open->closed register (event sequence numbers as timestamps), Serve returns nil after Close/Shutdown and exactly the permanent Accept error otherwise, temporary Accept errors are survived, Shutdown returns nil only after the active connections ended or its context's error not before the fake deadline, one Logout per session. -race build: the Go race detector is the oracle; a report whose accessing frames are library code is a violation keyed by the unordered pair of access sites, a report in harness code is a harness fault (exit 2).",
+   note="Interleavings are controlled at blocking points and at the two yield hooks; a race inside a straight-line stretch of the command loop is only seen by the detector if no later lock release by the same goroutine orders it before the other goroutine runs (measured: removing Conn.locker from reset() is NOT detected, sharing the BDAT result channel IS). A porcupine timeout is inconclusive and never reported."),
  "C01": dict(level="exploration", ref="7/C01",
    text="Seeded search plus a systematic sweep of all 5461 bodies over the byte classes {'.',CR,LF,other} up to length 6, each run under a drawn transport segmentation, server short-read plan and backend read-size plan; the octets and terminal error the real dataReader hands the backend are compared with an RFC 5321 reference unstuffer. Sampling, not proof: evidence of byte-exactness over the explored streams x schedules.",
    note="Trusts: the reference unstuffer (cross-checked against a reference stuffer), Go's testing/synctest fake clock, go1.26.8 building go-smtp the same way go1.23.5 does."),
